@@ -44,6 +44,8 @@ def parse_type(s):
         return ("list", parse_type(s[5:-1]))
     if s.startswith("ref:"):
         return ("ref", s[4:])
+    if s.startswith("optref:"):
+        return ("ref", s[7:], True)          # nullable reference (as a list element / field type)
     if s.startswith("enum:"):
         return ("enum", s[5:])
     raise VCError(f"bad type string {s!r}")
